@@ -27,12 +27,12 @@ fn sweep_ref(p: Point, sweep: f32, us: (i64, i64), ue: (i64, i64)) -> (bool, boo
 }
 
 macro_rules! c18_sector_grid {
-    ($name:ident, [$(($st:expr, $sw:expr, $usx:expr, $usy:expr, $uex:expr, $uey:expr)),+ $(,)?]) => {
+    ($name:ident, $dbits:expr, [$(($st:expr, $sw:expr, $usx:expr, $usy:expr, $uex:expr, $uey:expr)),+ $(,)?]) => {
         #[cfg_attr(kani, kani::proof, kani::unwind(4))]
         pub fn $name() {
-            let d = small_u(5);
+            let d = small_u($dbits);
             let tl = anchor();
-            let q = tl + point(6) + Point::new(12, 12);
+            let q = tl + point($dbits + 1) + Point::new(1 << ($dbits - 1), 1 << ($dbits - 1));
             note!("diameter", d); note!("top_left", tl); note!("q", q);
             let circle = Circle::new(tl, d);
             let in_circle = circle.contains(q);
@@ -85,4 +85,15 @@ pub fn c18_q_angle_code_deterministic() {
     let s1 = Sector::new(Point::zero(), 6, Angle::from_degrees(30.0), Angle::from_degrees(100.0));
     check!(s1.contains(q) == s1.contains(q), "C18.selftest_deterministic_model");
     reach!(s1.contains(q), "reach.contained");
+}
+
+/// Sector::points() == contains() for listed small sectors (C05; fixed_point build), symbolic probe
+#[cfg_attr(kani, kani::proof, kani::unwind(40))]
+pub fn c05_q_g_sectors() {
+    let q = point(4) + Point::new(2, 2);
+    note!("q", q);
+    crate::c05::points_vs_contains(&Sector::new(Point::zero(), 3, Angle::from_degrees(0.0), Angle::from_degrees(90.0)), q);
+    crate::c05::points_vs_contains(&Sector::new(Point::zero(), 3, Angle::from_degrees(200.0), Angle::from_degrees(-150.0)), q);
+    crate::c05::points_vs_contains(&Sector::new(Point::new(-3, -2), 5, Angle::from_degrees(45.0), Angle::from_degrees(200.0)), q);
+    crate::c05::points_vs_contains(&Sector::new(Point::zero(), 4, Angle::from_degrees(10.0), Angle::from_degrees(370.0)), q);
 }
